@@ -298,11 +298,24 @@ func (d *Driver) yield(instanceID, site string) {
 			y.d = 0 // unknown goroutine: pure reordering, never a stall (stalls are accounted per instance)
 		}
 	}
-	for _, in := range d.insts {
-		if in.cfg.ID == instanceID {
-			y.inst = in.idx
-			in.parkedYields++
-			d.gidInst[g] = in.idx
+	if instanceID != "" {
+		// (two election objects may share one InstanceID - a replacement started while the old
+		// process is still alive: the goroutine's own attribution decides between them)
+		match := -1
+		if i, ok := d.gidInst[g]; ok && d.insts[i].cfg.ID == instanceID {
+			match = i
+		} else {
+			for _, in := range d.insts {
+				if in.cfg.ID == instanceID {
+					match = in.idx
+					break
+				}
+			}
+		}
+		if match >= 0 {
+			y.inst = match
+			d.insts[match].parkedYields++
+			d.gidInst[g] = match
 		}
 	}
 	d.h.Stalls = append(d.h.Stalls, StallEvt{T: d.now(), Site: site, D: y.d, GID: y.gid, Inst: y.inst})
